@@ -123,9 +123,18 @@ func cmdCheck(args []string) int {
 	for _, k := range ks {
 		pkgSet[k.Pkg] = true
 	}
-	var loadKs []*Kernel
+	loadSet := map[string]bool{}
 	for _, k := range all {
 		if pkgSet[k.Pkg] {
+			loadSet[k.Pkg] = true
+			for _, w := range k.WithPkgs {
+				loadSet[w] = true
+			}
+		}
+	}
+	var loadKs []*Kernel
+	for _, k := range all {
+		if loadSet[k.Pkg] {
 			loadKs = append(loadKs, k)
 		}
 	}
